@@ -9,9 +9,14 @@ FitnessTrace.tla evaluates the C10 clauses on the returned values.
 from __future__ import annotations
 
 import json
+import os
+import subprocess
+import sys
+from concurrent.futures import ThreadPoolExecutor
 
 from harness.adapters import fitness as ad
-from harness.core import Ctx, parallel_map
+from harness.core import REPO, ROOT, Ctx, parallel_map
+from harness.tlc import MachineryError
 
 #: clauses of FitnessTrace.cfg that compare the real code with the model (drift, never a verdict)
 DRIFT = {"ObservedTraceWF", "ConformsFitness", "ConformsCovered", "ConformsCoverage", "ConformsMerge"}
@@ -48,6 +53,76 @@ def _eval_job(job) -> dict:
     return ad.eval_event(real_for(reg), t, exs, ad.PALETTES[pal])
 
 
+SUTS = {
+    "fit_sut_a": '''
+def classify(x: int, y: int) -> str:
+    if x > y:
+        if x > 100:
+            return "big"
+        return "gt"
+    elif x == y:
+        return "eq"
+    return "lt"
+
+
+def noop() -> int:
+    return 1
+''',
+    "fit_sut_b": '''
+class Acc:
+    def __init__(self, start: int):
+        self.v = start % 10
+
+    def add(self, n: int) -> int:
+        n = n % 5
+        while n > 0:
+            self.v += 1
+            n -= 1
+        if self.v == 7:
+            return -1
+        return self.v
+
+
+def pick(s: str, k: int) -> str:
+    if s in ("a", "bb", "ccc"):
+        return s * 2
+    if k < 0 or len(s) > 3:
+        return "neg"
+    return s
+''',
+}
+
+
+def search_run(spec: dict) -> dict:
+    """One real search (pynguin CLI entry point, in a subprocess) with the recording hook of
+    harness/adapters/fitness_search.py; returns its record."""
+    work = spec["work"]
+    sut = os.path.join(work, "sut")
+    os.makedirs(sut, exist_ok=True)
+    for name, src in SUTS.items():
+        path = os.path.join(sut, name + ".py")
+        if not os.path.exists(path):
+            with open(path, "w") as f:
+                f.write(src.lstrip())
+    tag = f"{spec['module']}-{spec['algorithm']}-{spec['seed']}"
+    out = os.path.join(work, f"search-{tag}.json")
+    env = dict(os.environ, PYTHONPATH=f"{ROOT}:{REPO}/src", PYNGUIN_DANGER_AWARE="1", PYTHONHASHSEED="0")
+    cmd = [sys.executable, "-m", "harness.adapters.fitness_search", out,
+           "--project-path", sut, "--module-name", spec["module"], "--output-path", os.path.join(work, "out-" + tag),
+           "--algorithm", spec["algorithm"], "--maximum-iterations", str(spec["iterations"]),
+           "--maximum-search-time", "-1", "--seed", str(spec["seed"]), "--no-rich",
+           "--use-master-worker", "False",
+           "--coverage-metrics", "BRANCH" if spec["algorithm"] == "DYNAMOSA" else "BRANCH,LINE"]
+    p = subprocess.run(cmd, cwd=work, env=env, capture_output=True, text=True, timeout=1500)
+    if not os.path.exists(out):
+        raise MachineryError(f"search run {tag} produced no record (exit {p.returncode}):\n{p.stderr[-1500:]}")
+    with open(out) as f:
+        rec = json.load(f)
+    if rec["errors"]:
+        raise MachineryError(f"recording hook failed in search run {tag}:\n{rec['errors'][0]}")
+    return rec
+
+
 def offenders(ev: dict, clause: str) -> str:
     """Human readable hint which recorded entries look wrong (for the report only)."""
     e = ev["post"]
@@ -80,7 +155,8 @@ def run(ctx: Ctx) -> None:
     ctx.rule = ("case = (registry, execution trace, exclusion sets) enumerated by TLC from MC_Fitness: ALL "
                 "well-formed abstract traces (predicate counts, true/false distances zero/finite/inf, executed "
                 "code objects, covered and checked lines) over all registries in bounds, plus the test traces of "
-                "random tracer-callback behaviours (-simulate); each is materialised as a real ExecutionTrace / "
+                "random tracer-callback behaviours (-simulate) and the best suite after every iteration of real "
+                "search runs; each abstract trace is materialised as a real ExecutionTrace / "
                 "SubjectProperties and every fitness, coverage and goal function is called. non-trivial = "
                 "distinct (registry, trace, float palette) with a non-empty registry; evaluations = function "
                 "results checked by TLC")
@@ -92,7 +168,20 @@ def run(ctx: Ctx) -> None:
         "test cases / executor are stubs returning the materialised ExecutionResult; chromosomes, fitness and "
         "coverage function classes, goals, CFG and CDG objects are the real classes",
         "assertion-checked coverage is exercised only with traces that contain no executed assertions",
+        "real search runs: pynguin CLI entry point on two small modules (branch + line coverage), best suite after "
+        "every iteration, all functions attached to the suite plus fresh instances; first 8 test cases for goals",
     ]
+    # real suites from real search runs (best suite after every iteration); started now, collected later
+    work = str(ctx.work / "search")
+    if ctx.quick:
+        specs = [{"module": "fit_sut_a", "algorithm": "DYNAMOSA", "seed": ctx.seed + 1, "iterations": 3}]
+    else:
+        specs = [{"module": m, "algorithm": a, "seed": ctx.seed + sd, "iterations": 6}
+                 for m in SUTS for a in ("WHOLE_SUITE", "MOSA", "DYNAMOSA", "MIO") for sd in (1, 2)]
+    for sp_ in specs:
+        sp_["work"] = work
+    pool = ThreadPoolExecutor(max_workers=1 if ctx.quick else 4)
+    futures = [pool.submit(search_run, sp_) for sp_ in specs]
     q = ctx.quick
     ctx.design("Fitness", "Fitness.cfg" if q else "Fitness_thorough.cfg",
                coverage_actions=["ExecutedCodeObject", "ExecutedPredicate", "TrackLineVisit", "CheckedLine"])
@@ -120,8 +209,23 @@ def run(ctx: Ctx) -> None:
             origin.append({"reg": reg, "exs": exs, "trace": t, "palette": pal, "from": "simulate"})
     ctx.exhaustive = True
     events = parallel_map(_eval_job, jobs, chunksize=64)
+    records = [f.result() for f in futures]
+    pool.shutdown()
+    n_search = 0
+    for sp_, rec in zip(specs, records):
+        for ev in rec["events"]:
+            events.append(ev)
+            jobs.append((ev["reg"], ev["exs"], ev["post"]["tr"], -1))
+            origin.append({"from": "search", "spec": {k: v for k, v in sp_.items() if k != "work"}})
+            n_search += 1
+    ctx.notes["search_runs"] = [{k: v for k, v in s_.items() if k != "work"} | {"iterations_seen": r["iterations"],
+                                                                              "events": len(r["events"])}
+                                for s_, r in zip(specs, records)]
+    ctx.notes["cases_from_search_runs"] = n_search
+    if n_search == 0:
+        raise MachineryError("search runs recorded no suite")
     ctx.notes["cases_enumerated"] = n_enum
-    ctx.notes["cases_simulated"] = len(jobs) - n_enum
+    ctx.notes["cases_simulated"] = len(jobs) - n_enum - n_search
     ctx.notes["registries"] = len(groups)
     ctx.notes["functions"] = ad.LEGEND
     n_eval = 0
@@ -129,7 +233,7 @@ def run(ctx: Ctx) -> None:
         e = ev["post"]
         n_eval += len(e["fits"]) + len(e["goals"]) + len(e["covs"])
         if ev["reg"]["cos"] or ev["reg"]["nl"]:
-            ctx.nontriv(json.dumps([ev["reg"], job[2], job[3]], sort_keys=True))
+            ctx.nontriv(json.dumps([ev["reg"], job[2], job[3], ev["post"]["fits"][:1]], sort_keys=True))
     ctx.evaluations = n_eval
     traces = [{"ev": [ev]} for ev in events]
     verdicts = ctx.validate("FitnessTrace", traces, chunk=4000)
@@ -155,10 +259,13 @@ def run(ctx: Ctx) -> None:
 
 def replay(ctx: Ctx, rec: dict) -> int:
     b = rec["behaviour"]
-    ev = _eval_job((b["reg"], b["exs"], b["trace"], b["palette"]))
-    verdicts = ctx.validate("FitnessTrace", [{"ev": [ev]}])
-    print("replayed event:", json.dumps(ev)[:2000])
-    bad = [c for c, _ in verdicts.get(0, []) if c not in DRIFT]
+    if b.get("from") == "search":
+        evs = search_run(dict(b["spec"], work=str(ctx.work / "search")))["events"]
+    else:
+        evs = [_eval_job((b["reg"], b["exs"], b["trace"], b["palette"]))]
+    verdicts = ctx.validate("FitnessTrace", [{"ev": [ev]} for ev in evs])
+    print("replayed event:", json.dumps(evs[0])[:2000])
+    bad = sorted({c for v in verdicts.values() for c, _ in v if c not in DRIFT})
     if bad:
         print(f"VIOLATION property=C10 replay=(this) clauses={bad}")
         return 1
